@@ -5,8 +5,7 @@ import sqlcommon as sc, semcommon as sm
 from sexpr import enc, hexs
 from odata_query import ast
 
-PROP_MODS = ["ODataVerif.Tie.Sql"] + [m for m in ("ODataVerif.Props.C01", "ODataVerif.Props.C01Chain")
-                                       if os.path.exists(common.lean_module_path(m))]
+PROP_MODS = ["ODataVerif.Tie.Sql", "ODataVerif.Tie.SqlTemplates", "ODataVerif.Props.C01", "ODataVerif.Props.C01Chain", "ODataVerif.Props.C01Full", "ODataVerif.Spec.NumFn"]
 KF_SIG = "C01:sqlite:semOk-excluded"
 
 def texts_of(nodes):
@@ -24,7 +23,7 @@ def real_where(text):
     return r, tree
 
 def run(ctx):
-    common.build_and_audit(ctx, PROP_MODS, gen=lambda c: gen_tables.generate(["Sql"]))
+    common.build_and_audit(ctx, PROP_MODS, gen=lambda c: gen_tables.generate(["Sql", "SqlTemplates"]))
     rng = ctx.rng
     g = sm.SemGen(rng)
     n_f = 12000 if ctx.thorough else 1500
@@ -129,8 +128,29 @@ def run(ctx):
         c, row, why = viol[0]
         ctx.broken.append(f"real SQLite result violates C01 on {len(viol)} (filter,row) pairs; first: {c[2]!r} row={row}: {why}"[:700])
 
+    # 3. numeric stream: floor / ceiling / round over a fractional column, judged against Spec.NumFn (Lean)
+    nrows = sm.numeric_rows()
+    ncon = sm.sqlite_table(nrows)
+    def sqlite_ids(t):
+        r, tree = real_where(t)
+        if not r.startswith("ok "):
+            return r
+        try:
+            return {x[0] for x in ncon.execute("SELECT id FROM t WHERE " + bytes.fromhex(r[3:]).decode())}
+        except Exception as e:  # noqa
+            return f"sqlite-error {e}"
+    kf_round = lambda fn, r: fn == "round" and r["_q"] is not None and r["_q"] < 0      # KNOWN FINDING C01-sqlite-round-negative
+    nviol, ntally = sm.judge_numeric(ctx, sqlite_ids, nrows, kf=kf_round)
+    ctx.extra["judged_numeric"] = dict(ntally)
+    ctx.note(f"numeric stream (floor / ceiling / round x 6 comparisons x 7 constants on {len(nrows)} rows, Spec.NumFn): {dict(ntally)}")
+    if nviol:
+        ctx.broken.append(f"real SQLite result violates C01 on {len(nviol)} (filter,row) pairs of the numeric stream; first: {nviol[0][0]!r} row={nviol[0][1]}: {nviol[0][2]}"[:700])
+
     def search(ctx):
         found = []
+        for t, row, why in nviol[:20]:
+            found.append({"property": "C01", "filter": t, "row": row, "why": why, "signature": "C01:sqlite:numeric:" + t.split("(")[0],
+                          "replay": "parse(filter) -> AstToSqliteSqlVisitor().visit -> SELECT id FROM t WHERE <text> on the row (f1 REAL); compare with Spec.numFnHolds (Lean, `numfn`)"})
         for c, row, why in viol[:40]:
             found.append({"property": "C01", "filter": c[2], "tree": repr(c[1]), "where": bytes.fromhex(c[3][3:]).decode("utf-8", "replace") if c[3].startswith("ok ") else c[3],
                           "row": row, "why": why, "signature": "C01:sqlite:" + why.split(" ")[0] + ":" + type(c[1]).__name__,
@@ -145,6 +165,8 @@ def run(ctx):
 
     def known_replay(f):
         import sqlite3
+        if f.get("stream") == "numeric":
+            return ntally.get("under-known-finding", 0) > 0
         rows = [{"id": 1, "i1": None, "i2": None, "s1": f.get("cell", "ABC"), "s2": f.get("cell2"), "b1": None}]
         con = sm.sqlite_table(rows)
         r, tree = real_where(f["source_text"])
